@@ -36,7 +36,15 @@ def jobs(tier, seed):
             wins = [((1 << 63), 'at 2^63'), (midpoint_base(e, W, rnd), 'around the decimal neighbours of a seeded double midpoint')]
             if not q: wins += [((1 << 64) - (1 << W), 'top of the 64-bit range'), (rnd.randrange(1, 1 << 53), 'seeded small mantissa')]
             for base, desc in wins:
-                J.append(Job('C04.%s.e%d.b%d' % (name, e, base), 'harness/c_atof.cpp', '@h_atof', [kern, e & 0xffffffff, base, W, 0, 0], engine='cbmc', timeout=3000,
+                # binary exponents (bits 52.. minus 1075) of the correctly rounded results at both ends of the window
+                def e2_of(man):
+                    v = Fraction(man) * (Fraction(10) ** e)
+                    q = v.numerator.bit_length() - v.denominator.bit_length()      # 2^(q-1) <= v < 2^(q+1)
+                    if v < Fraction(2) ** q: q -= 1
+                    return q - 52
+                lo_e2 = e2_of(max(1, base)); hi_e2 = e2_of(base + (1 << W) - 1)
+                cands = sorted(set([lo_e2, hi_e2, hi_e2 + 1]))[:2] if lo_e2 != hi_e2 else [lo_e2, lo_e2 + 1]
+                J.append(Job('C04.%s.e%d.b%d' % (name, e, base), 'harness/c_atof.cpp', '@h_atof', [kern, e & 0xffffffff, base, W, 0, 0, cands[0] & 0xffffffff, cands[1] & 0xffffffff], engine='cbmc', timeout=3000,
                              bound='%s, decimal exponent %d, all %d mantissas base=%d + delta (%s)' % ('AtofEiselLemire64' if kern == 0 else 'ParseFloatingNormalFast', e, 1 << W, base, desc),
                              extra=dict(bigw=260 + int(3.33 * abs(e)) + 1, unwind=352, input_names=[('int', 'delta')], cbmc_timeout=2400, seed=seed, witness_param=5, witness_optional=True, validate_vectors=2000)))
     return J
